@@ -324,6 +324,41 @@ RC_EXPECT = ["TFFFFTTFFF", "TTFFFFFFTT", "TTFFFFFFTT", "FTFFFFFTFT", "FFFTFFFFFF
              "FFFFTFFFFF"]
 
 
+def _todo(x):
+    return _vcal(b"BEGIN:VTODO\r\nUID:u\r\nDTSTAMP:20200101T000000Z\r\n" + x + b"END:VTODO\r\n")
+
+
+# second corpus: the VTODO rows of 9.9, multi-day all-day events, nested VALARM comp-filters, collations / negation
+RC2_BODIES = [
+    _todo(b"DTSTART:20200101T100000Z\r\nDURATION:PT1H\r\n"),
+    _todo(b"DTSTART:20200101T100000Z\r\nDUE:20200101T120000Z\r\n"),
+    _todo(b"DTSTART:20200101T100000Z\r\n"),
+    _todo(b"COMPLETED:20200101T120000Z\r\nCREATED:20200101T100000Z\r\n"),
+    _todo(b"COMPLETED:20200101T120000Z\r\n"),
+    _todo(b"CREATED:20200101T100000Z\r\n"),
+    _vcal(_ev(b"DTSTART;VALUE=DATE:20200101\r\nDTEND;VALUE=DATE:20200103\r\n")),
+    _vcal(_ev(b"DTSTART:20200101T100000Z\r\nDTEND:20200101T110000Z\r\nBEGIN:VALARM\r\nACTION:DISPLAY\r\nDESCRIPTION:x\r\n"
+              b"TRIGGER:-PT5M\r\nEND:VALARM\r\n")),
+    _vcal(_ev(b"DTSTART:20200101T100000Z\r\nDTEND:20200101T110000Z\r\nSUMMARY:Caf\xc3\xa9\r\n")),
+]
+RC2_FILTERS = [
+    ("VTODO", "range", ("20200101T103000Z", "20200101T113000Z")),
+    ("VTODO", "range", ("20200101T110000Z", "20200101T113000Z")),
+    ("VTODO", "range", ("20200101T090000Z", "20200101T100000Z")),
+    ("VTODO", "range", ("20200101T120000Z", "20200101T130000Z")),
+    ("VEVENT", "range", ("20200102T120000Z", "20200102T130000Z")),
+    ("VEVENT", "range", ("20200103T000000Z", "20200103T010000Z")),
+    ("VEVENT", "comp", ("VALARM", False)),
+    ("VEVENT", "comp", ("VALARM", True)),
+    ("VEVENT", "textx", ("SUMMARY", "CAF\u00c9", "i;octet", None)),
+    ("VEVENT", "textx", ("SUMMARY", "caf\u00e9", "i;ascii-casemap", "yes")),
+    ("VEVENT", "prange", ("DTSTART", "20200101T100000Z", "20200101T100001Z")),
+]
+RC2_EXPECT = ["TTFFFFFFFFF", "TTFFFFFFFFF", "FFFFFFFFFFF", "TTTTFFFFFFF", "FFFTFFFFFFF", "TTFTFFFFFFF", "FFFFTFFTFFF",
+              "FFFFFFTFFFT", "FFFFFFFTFFT"]
+CORPORA = [None, None]  # filled below (RC_* / RC2_*)
+
+
 def _rc_filter(spec):
     comp, kind, a = spec
     f = ET.Element("{%s}filter" % _NSC)
@@ -338,9 +373,26 @@ def _rc_filter(spec):
         if a[1]:
             t.set("end", a[1])
         return f
+    if kind == "comp":
+        cc = ET.SubElement(c, "{%s}comp-filter" % _NSC)
+        cc.set("name", a[0])
+        if a[1]:
+            ET.SubElement(cc, "{%s}is-not-defined" % _NSC)
+        return f
     p_ = ET.SubElement(c, "{%s}prop-filter" % _NSC)
     p_.set("name", a[0])
-    if kind == "text":
+    if kind == "textx":
+        e = ET.SubElement(p_, "{%s}text-match" % _NSC)
+        e.text = a[1]
+        if a[2]:
+            e.set("collation", a[2])
+        if a[3]:
+            e.set("negate-condition", a[3])
+    elif kind == "prange":
+        t = ET.SubElement(p_, "{%s}time-range" % _NSC)
+        t.set("start", a[1])
+        t.set("end", a[2])
+    elif kind == "text":
         ET.SubElement(p_, "{%s}text-match" % _NSC).text = a[1]
     elif kind == "param":
         ET.SubElement(p_, "{%s}param-filter" % _NSC).set("name", a[1])
@@ -349,27 +401,33 @@ def _rc_filter(spec):
     return f
 
 
+CORPORA[0] = (RC_BODIES, RC_FILTERS, RC_EXPECT)
+CORPORA[1] = (RC2_BODIES, RC2_FILTERS, RC2_EXPECT)
+
+
 def body_real_corpus(bi, fi):
     """Real iCalendar bodies (UTC, all-day DATE, floating + DURATION, TZID with VTIMEZONE, VTODO with DUE only /
     nothing, VJOURNAL, a zero-length event, two journal entries of which one is undated) through the REAL icalendar
     parser, the REAL parse_filter and CalendarFilter.check, against answers worked out by hand from RFC 4791."""
     from xv.core import picks, untraced
-    bi, fi = picks((bi, fi), (len(RC_BODIES), len(RC_FILTERS)))
+    ci = ctx.PART
+    bodies, filters, expect = CORPORA[ci]
+    bi, fi = picks((bi, fi), (len(bodies), len(filters)))
     with untraced():
         import datetime as _real
         import logging
         cf = _REAL_ICAL.CalendarFilter(_real.timezone.utc)
-        _REAL_CALDAV.parse_filter(_rc_filter(RC_FILTERS[fi]), cf)
-        fobj = _REAL_ICAL.ICalendarFile([RC_BODIES[bi]], "text/calendar")
+        _REAL_CALDAV.parse_filter(_rc_filter(filters[fi]), cf)
+        fobj = _REAL_ICAL.ICalendarFile([bodies[bi]], "text/calendar")
         logging.disable(logging.CRITICAL)
         got = bool(cf.check("x.ics", fobj))
-        want = RC_EXPECT[bi][fi] == "T"
+        want = expect[bi][fi] == "T"
         return (got == want, "hit" if want else "miss")
 
 
 def h_real_corpus(bi: int, fi: int) -> bool:
     """
-    pre: 0 <= bi < len(RC_BODIES) and 0 <= fi < len(RC_FILTERS)
+    pre: 0 <= bi < len(CORPORA[ctx.PART][0]) and 0 <= fi < len(CORPORA[ctx.PART][1])
     post: _
     """
     return run(body_real_corpus, bi, fi)
@@ -636,8 +694,9 @@ HARNESSES = [
         assumptions=_TR_ASSUME,
         encodes=["xandikos.icalendar.apply_time_range_vfreebusy"],
     ),
-    Harness("real_corpus", h_real_corpus, body_real_corpus, classes=["hit", "miss"], budget={"quick": 45, "thorough": 90},
-            describe="9 real iCalendar bodies x 10 filters through the real icalendar parser, the real parse_filter and "
+    Harness("real_corpus", h_real_corpus, body_real_corpus, classes=[("hit", 0), ("miss", 1)], parts={"quick": [0, 1]},
+            budget={"quick": 45, "thorough": 90},
+            describe="two corpora (9 bodies x 10 filters, 9 x 11) of real iCalendar bodies through the real icalendar parser, the real parse_filter and "
                      "CalendarFilter.check, against answers worked out by hand from RFC 4791 9.7 / 9.9 "
                      "(DATE, floating, UTC, TZID values; DURATION; VTODO rows; undated VJOURNAL; CATEGORIES; parameters); "
                      "exhaustive over the corpus (no A6 here: nothing is stubbed)",
